@@ -1951,6 +1951,9 @@ class Array(DaskMethodsMixin):
                 value = broadcast_to(value, self[key].shape)
 
             y = where(key, value, self)
+            if y.chunks != self.chunks:
+                # assignment never changes the chunks (the mask may be chunked differently)
+                y = y.rechunk(self.chunks)
             # FIXME does any backend allow mixed ops vs. numpy?
             # If yes, is it wise to let them change the meta?
             self._meta = y._meta
